@@ -24,8 +24,11 @@ type BlockRec struct {
 	Frame    idx.Frame // LastDecidedFrame+1 at BeginBlock time
 	Atropos  hash.Event
 	Cheaters []idx.ValidatorID
-	Applied  []hash.Event
-	Sealed   bool
+	// CheatersRef is the slice exactly as delivered in the Block (not copied): an application that keeps the
+	// block must still read the same list later
+	CheatersRef []idx.ValidatorID
+	Applied     []hash.Event
+	Sealed      bool
 }
 
 func (b BlockRec) Key() string {
@@ -148,10 +151,11 @@ func (in *Instance) bootstrap() error {
 	return in.L.Bootstrap(lachesis.ConsensusCallbacks{
 		BeginBlock: func(block *lachesis.Block) lachesis.BlockCallbacks {
 			rec := BlockRec{
-				Epoch:    in.Store.GetEpoch(),
-				Frame:    in.Store.GetLastDecidedFrame() + 1,
-				Atropos:  block.Atropos,
-				Cheaters: append([]idx.ValidatorID{}, block.Cheaters...),
+				Epoch:       in.Store.GetEpoch(),
+				Frame:       in.Store.GetLastDecidedFrame() + 1,
+				Atropos:     block.Atropos,
+				Cheaters:    append([]idx.ValidatorID{}, block.Cheaters...),
+				CheatersRef: block.Cheaters,
 			}
 			in.Blocks = append(in.Blocks, rec)
 			bi := len(in.Blocks) - 1
